@@ -215,6 +215,36 @@ def cmd_survive(k):
     sh("git -C %s checkout -- ." % WT)
 
 
+def cmd_recheck(k):
+    """Re-evaluates the mutants currently recorded as `missed` (rules change while the sampling runs)."""
+    plan, res = load()
+    for m in plan:
+        r_ = res.get(m["id"], {})
+        if r_.get("static") == "missed":
+            r_.pop("static", None)
+            r_["was_missed"] = True
+    json.dump(res, open(RES, "w"), indent=1, sort_keys=True)
+    cmd_static(k)
+
+
+def cmd_ids(ids):
+    """Evaluates the named mutants now, in a private scratch dir, without touching the results file."""
+    plan, _ = load()
+    scratch = SCRATCH + "-ids"
+    os.makedirs(scratch, exist_ok=True)
+    for m in plan:
+        if m["id"] not in ids:
+            continue
+        dst = os.path.join(scratch, "repo")
+        subprocess.check_call(["rsync", "-a", "--delete", "--exclude", "target", "--exclude", ".git", "/repo/", dst + "/"])
+        apply(dst, m)
+        env = dict(os.environ, QBV_REPO=dst, QBV_EVIDENCE_DIR=os.path.join(scratch, "evidence"))
+        r = subprocess.run([os.path.join(VERIF, "check"), "all", "quick"], cwd=VERIF, env=env, stdout=subprocess.PIPE, stderr=subprocess.STDOUT, text=True)
+        keys = sorted({x.group(1) for x in re.finditer(r": C\d+\.[a-z] \[([^\]]+)\]", r.stdout)})
+        st = "does-not-compile" if "ENGINE-ERROR" in r.stdout else ("caught" if keys else "missed")
+        print("%s %-28s %-12s %-10s %s" % (m["id"], m["file"].split("/")[-1] + ":" + str(m["line"]), m["op"], st, ";".join(keys)[:160]), flush=True)
+
+
 def cmd_report():
     plan, res = load()
     from collections import Counter
@@ -234,5 +264,8 @@ def cmd_report():
 
 if __name__ == "__main__":
     a = sys.argv[1] if len(sys.argv) > 1 else "report"
+    if a == "ids":
+        cmd_ids(set(sys.argv[2].split(",")))
+        sys.exit(0)
     n = int(sys.argv[2]) if len(sys.argv) > 2 else 10
-    {"gen": cmd_gen, "static": cmd_static, "survive": cmd_survive, "report": lambda _: cmd_report()}[a](n)
+    {"gen": cmd_gen, "static": cmd_static, "survive": cmd_survive, "recheck": cmd_recheck, "report": lambda _: cmd_report()}[a](n)
